@@ -63,7 +63,11 @@ func checkC13(r *Run) {
 	sort.Strings(akeys)
 	for _, k := range akeys {
 		a := ts.acc[k]
-		if strings.Contains(k, ".Ent.Clunk called") || strings.Contains(k, ".Ent.Remove called") || strings.Contains(k, "delRefAction") {
+		// release sites, and every access the unbind helper makes to the fid's state: its decision that there is
+		// "nothing to release" (Ent == nil) must be taken under the fid's lock, i.e. after an in-flight Attach/Walk
+		// that reserved the fid has finished binding its entry — otherwise that entry ends up bound to an
+		// unreachable fid and is never released
+		if strings.Contains(k, ".Ent.Clunk called") || strings.Contains(k, ".Ent.Remove called") || strings.Contains(k, "delRefAction") || strings.HasPrefix(a.key, "(*p9p.session).delRef:") {
 			nRel++
 			if a.ok {
 				r.Ok("own/release-under-lock", a.key, a.pos)
@@ -93,6 +97,7 @@ func checkC13(r *Run) {
 
 	c13Stop(r, ts)
 	placeholderHandout(r, fns, "own/placeholder")
+	publishLocked(r, fns, "own/publish-locked")
 	r.Exhaustive = true
 }
 
